@@ -48,6 +48,13 @@ def check_one(kind, d):
     except Exception as e:
         feat = "text-with-pipe" if any("|" in t for t in ([d["description"] or ""] + [v for vs in d["extensions"].values() for v in vs])) else "other"
         return [(f"reparse-exc:{feat}:{norm_msg(e, 30)}", f"from_string(str(d)) raised {type(e).__name__}: {e}; text {s[:140]!r}")]
+    try:
+        if str(obj) != s or str(back) != s and back == obj:
+            return [("str-not-repeatable", f"text form not stable: {s[:100]!r}")]
+        if gs.cls_of(sl, kind).from_string(s) != back:
+            return [("parse-not-repeatable", f"parsing {s[:100]!r} twice gives different definitions")]
+    except Exception as e:
+        return [(f"second-use-exc:{norm_msg(e, 30)}", f"second str()/from_string raised {type(e).__name__}: {e}")]
     if back != obj:
         a, b = gs.from_obj(kind, back), d
         fld = next((k for k in b if a.get(k) != b[k]), "?")
